@@ -57,7 +57,7 @@ inductive NodeSettled (sv : Bool) : PNode → Node → Prop where
 /-- a list of live siblings is aligned with the file's entries for their parent -/
 inductive Settled (sv : Bool) : List PNode → List Node → Prop where
   | nil : Settled sv [] []
-  | both {p ps t ts} : keyCmp t.name t.kind p.name p.kind = 0 → NodeSettled sv p t → Settled sv ps ts →
+  | both {p ps t ts} : t.name = p.name → t.kind = p.kind → NodeSettled sv p t → Settled sv ps ts →
       Settled sv (p :: ps) (t :: ts)
   | absent {ps t ts} : AtDefault sv t →
       (∀ p ps', ps = p :: ps' → keyCmp t.name t.kind p.name p.kind < 0) → Settled sv ps ts →
@@ -94,9 +94,8 @@ theorem toLiveList_settled (V : Variant) (h14 : V.f14 = true) (sv : Bool) :
   | [], h => by simp only [toLiveList]; exact .nil
   | p :: ps, h => by
     simp only [toLiveList]
-    refine .both ?_ (toLive_settled V h14 sv p h) (toLiveList_settled V h14 sv ps _)
-    rw [(toLive_name_kind V p h).1, (toLive_name_kind V p h).2]
-    exact keyCmp_self _ _
+    exact .both (toLive_name_kind V p h).1 (toLive_name_kind V p h).2 (toLive_settled V h14 sv p h)
+      (toLiveList_settled V h14 sv ps _)
 end
 
 
@@ -563,8 +562,8 @@ theorem load_settles_aux (V : Variant) (h9 : V.f9 = true) (h14 : V.f14 = true) (
           obtain ⟨⟨rest, m1, e1⟩, hw, hrest⟩ := bind_ok h
           simp at hrest
           rw [← hrest.1]
-          refine .both ?_ (toLive_settled V h14 sv p h0) (ihW _ _ _ _ _ _ _ _ hw)
-          rw [(toLive_name_kind V p h0).1, (toLive_name_kind V p h0).2]; exact keyCmp_self _ _
+          exact .both (toLive_name_kind V p h0).1 (toLive_name_kind V p h0).2 (toLive_settled V h14 sv p h0)
+            (ihW _ _ _ _ _ _ _ _ hw)
       | cons t ts =>
         cases ps with
         | nil =>
@@ -586,8 +585,7 @@ theorem load_settles_aux (V : Variant) (h9 : V.f9 = true) (h14 : V.f14 = true) (
             obtain ⟨⟨rest, m1, e1⟩, hw, hrest⟩ := bind_ok h
             simp at hrest
             rw [← hrest.1]
-            refine .both ?_ (toLive_settled V h14 sv p h0) (ihW _ _ _ _ _ _ _ _ hw)
-            rw [hnk.1, hnk.2]; exact keyCmp_self _ _
+            exact .both hnk.1 hnk.2 (toLive_settled V h14 sv p h0) (ihW _ _ _ _ _ _ _ _ hw)
           · simp only [hgt, if_false] at h
             by_cases hlt : keyCmp t.name t.kind (toLive V p h0).1.name (toLive V p h0).1.kind < 0
             · simp only [hlt, if_true] at h
@@ -613,12 +611,12 @@ theorem load_settles_aux (V : Variant) (h9 : V.f9 = true) (h14 : V.f14 = true) (
               simp at hrest
               rw [← hrest.1]
               have hkind : p.kind = t.kind := by rw [← hnk.2]; exact (keyCmp_zero_kind heq).symm
-              obtain ⟨t', rfl, hs, hn', hk'⟩ := ihS _ _ _ _ _ _ _ hkind hr
-              refine .both ?_ hs (ihW _ _ _ _ _ _ _ _ hw)
-              simp only [Node.name] at heq ⊢
-              rw [hn', hk']
-              rw [hnk1, hnk.2] at heq
-              exact heq
+              obtain ⟨t', rfl, hs, hn', hk'⟩ := ihS _ (t.rename (toLive V p h0).1.name) _ _ _ _ _ (by simpa using hkind) hr
+              refine .both ?_ ?_ hs (ihW _ _ _ _ _ _ _ _ hw)
+              · have := Node.rename_name t (toLive V p h0).1.name
+                show t'.base.name = p.name
+                rw [hn']; exact this.trans hnk.1
+              · rw [hk', Node.rename_kind, hkind]
     · -- revertAll
       intro pfx ts e rs m e' h
       cases ts with
@@ -698,22 +696,23 @@ theorem reload_idem_aux (V : Variant) (h9 : V.f9 = true) (sv : Bool) : ∀ fuel,
       | nil =>
         simp [toLiveList, walk] at h
         rw [h.1, h.2.1, h.2.2]; exact ⟨rfl, rfl, rfl⟩
-      | @both p ps t ts hkey hn hrest =>
+      | @both p ps t ts hname hkd hn hrest =>
         simp only [toLiveList, walk] at h
         have hnk := toLive_name_kind V p h0
         have hnk1 : (toLive V p h0).1.name = p.name := hnk.1
         have heq : keyCmp t.name t.kind (toLive V p h0).1.name (toLive V p h0).1.kind = 0 := by
-          rw [hnk1, hnk.2]; exact hkey
+          rw [hnk1, hnk.2, hname, hkd]; exact keyCmp_self _ _
         have h1 : ¬ keyCmp t.name t.kind (toLive V p h0).1.name (toLive V p h0).1.kind > 0 := by omega
         have h2 : ¬ keyCmp t.name t.kind (toLive V p h0).1.name (toLive V p h0).1.kind < 0 := by omega
         simp only [h1, h2, if_false] at h
+        rw [hnk1, ← hname, Node.rename_self] at h
         obtain ⟨⟨r, e1⟩, hr, h3⟩ := bind_ok h
         obtain ⟨⟨rest, m1, e2⟩, hw, hres⟩ := bind_ok h3
         simp at hres
         obtain ⟨t', rfl, st, he1⟩ := ihS _ _ _ _ _ _ _ hn hr
         obtain ⟨w1, w2, w3⟩ := ihW _ _ _ _ _ _ _ _ hrest hw
         rw [← hres.1, ← hres.2.1, ← hres.2.2]
-        exact ⟨by simp [stripL, st, w1], w2, by rw [w3, he1]⟩
+        exact ⟨by simp [stripL, st, w1], by simp [w2], by rw [w3, he1]⟩
       | @absent ps t ts hd hord hrest =>
         cases ps with
         | nil =>
